@@ -10,9 +10,14 @@
 (*   def    "sut" / "other": module whose source really contains the       *)
 (*          callable (for an inherited view: where the method is written)  *)
 (*   owner  0 = module level, else index in M of the owning class          *)
-(*   inh    "own"      written in the body of the owner                    *)
-(*          "other"    view: inherited from a base class of another module *)
-(*          "sut"      view: inherited from a base class of the SUT        *)
+(*   inh    "own"      written in the body of the owner (also: a member    *)
+(*                     of the owner that overrides a base-class member,    *)
+(*                     src # 0)                                            *)
+(*          "other"    view: inherited, not overridden, from a base class  *)
+(*                     of another module (method, static method, class     *)
+(*                     method, property, lambda attribute)                 *)
+(*          "sut"      view: inherited, not overridden, from a base class  *)
+(*                     of the SUT                                          *)
 (*          "borrowed" a function of another module bound as class attr    *)
 (*   bound  the object is bound to a name in the SUT module namespace      *)
 (*   imp    how a foreign top-level object reaches the SUT: "from" (from   *)
@@ -99,8 +104,13 @@ Must(M, i, v, g) ==
              /\ o.kind \in {"class", "enumclass"} /\ o.owner = 0 /\ o.bound /\ o.def = "sut"
              /\ StrictName(o.nc, v)
 
-(* Members that may be under test without contradicting the statement: written in the SUT   *)
-(* (own, or inherited from a SUT class), not ignored, name not certainly ineligible.  Class *)
+(* Members that may be under test without contradicting the statement: written in the SUT,  *)
+(* in the body of the very class they are listed for, not ignored, name not certainly       *)
+(* ineligible.  A member is "defined in" the class whose body contains it: an inherited,    *)
+(* not overridden member (view) is not a callable of the inheriting class -- if its base    *)
+(* class belongs to another module it is defined in another module (def = "other"), if the  *)
+(* base class belongs to the SUT it is under test once, via the base class, and not a       *)
+(* second time via the subclass ("exactly the ... methods defined in that module").  Class  *)
 (* names are not filtered (the pinned tree's own tests expect `_ProtectedClass.__init__`    *)
 (* under PUBLIC; the statement read strictly says otherwise: both are accepted).  Kinds on  *)
 (* which the statement is silent (lambdas, coroutines, closures, enum / abstract / nested   *)
@@ -108,8 +118,11 @@ Must(M, i, v, g) ==
 May(M, i, v, g) ==
   LET r == M[i] IN
   /\ r.kind # "unexpected"
-  /\ r.def = "sut" /\ r.inh \in {"own", "sut"} /\ ~Ignored(M, i, g)
+  /\ r.def = "sut" /\ r.inh = "own" /\ ~Ignored(M, i, g)
   /\ (r.kind \in ClassLike \/ LaxName(r.nc, v))
+
+(* the view of an inherited, not overridden base-class member *)
+IsView(M, i) == M[i].inh \in {"other", "sut"}
 
 Foreign(M, i) == M[i].def # "sut"
 
@@ -198,6 +211,8 @@ MemItems(M, c) ==
   IF o.def = "other" THEN
        {<<MemR("method", nc, "other", c, "no")>> : nc \in {"public", "prot"}}
        \cup {<<MemR("staticmethod", "public", "other", c, "no")>>}
+       \cup {<<MemR("classmethod", nc, "other", c, "no")>> : nc \in {"public", "prot"}}
+       \cup {<<MemR("property", "public", "other", c, "no")>>}
   ELSE
        {<<MemR("method", nc, "sut", c, ig)>> :
           nc \in {"public", "prot", "priv", "dunder"}, ig \in {"no", "exact", "near"}}
@@ -212,15 +227,28 @@ MemItems(M, c) ==
 
 MemTargets(M) == {c \in DOMAIN M : M[c].kind \in ClassKinds /\ M[c].owner = 0 /\ ~HasSub(M, c)}
 
-(* a SUT class deriving from class b; every function member of b becomes a view of the new *)
-(* class, or -- with ovr -- an overriding method written in the new class                  *)
-Viewable == {"method", "staticmethod", "classmethod", "lambdaattr"}
+(* a SUT class deriving from class b (b: a class of the SUT, or a class of the other module  *)
+(* reached by `from helper import B`, `... import B as A` or `helper.B`).  Every function    *)
+(* member and every property of b -- written in b or itself only inherited by b -- becomes   *)
+(* either a view of the new class (inherited, not overridden: nothing is written in the SUT  *)
+(* subclass) or an overriding member of the same kind written in the body of the new class.  *)
+(* ovr = "none": nothing is overridden; "methods": plain methods are overridden, static      *)
+(* methods, class methods, properties and lambda attributes stay inherited; "all": methods,  *)
+(* static methods, class methods and properties are overridden.  (`__m` of a subclass is     *)
+(* mangled to another name than `__m` of the base class: private names never override.)      *)
+Viewable == {"method", "staticmethod", "classmethod", "property", "lambdaattr"}
+Overrides == {"none", "methods", "all"}
+Overridden(r, ovr) ==
+  /\ r.nc # "priv"
+  /\ r.kind \in (CASE ovr = "none" -> {}
+                  [] ovr = "methods" -> {"method"}
+                  [] OTHER -> {"method", "staticmethod", "classmethod", "property"})
 Derived(M, b, nc, ovr) ==
   LET d == Len(M) + 1
       mem == SelectSeq(Idx(M), LAMBDA j : M[j].owner = b /\ M[j].kind \in Viewable)
       View(j) ==
-        IF ovr /\ M[j].kind = "method" /\ M[j].nc # "priv"
-        THEN R("method", M[j].nc, "sut", d, "own", FALSE, "none", "no", 0, j)
+        IF Overridden(M[j], ovr)
+        THEN R(M[j].kind, M[j].nc, "sut", d, "own", FALSE, "none", "no", 0, j)
         ELSE R(M[j].kind, M[j].nc, M[j].def, d,
                IF M[j].def = "other" THEN "other" ELSE "sut", FALSE, "none", M[j].ig, 0, j)
   IN <<R("class", nc, "sut", 0, "own", TRUE, "none", "no", b, 0)>>
@@ -229,7 +257,7 @@ Derived(M, b, nc, ovr) ==
 DerivedItems(M) ==
   {Derived(M, b, nc, ovr) :
      b \in {c \in DOMAIN M : M[c].kind = "class" /\ M[c].owner = 0},
-     nc \in {"public", "prot"}, ovr \in BOOLEAN}
+     nc \in {"public", "prot"}, ovr \in Overrides}
 
 (* Shape "small": a top-level item only as first step, at most one added member per class; *)
 (* shape "full": anything.                                                                 *)
@@ -249,5 +277,9 @@ WellFormed(M) ==
     /\ (r.basei # 0 => r.kind = "class" /\ M[r.basei].kind = "class")
     /\ (r.inh \in {"other", "borrowed"} => r.def = "other")
     /\ (r.inh = "sut" => r.def = "sut" /\ r.src # 0)
+    /\ (r.inh = "other" => r.src # 0)
+    /\ (r.src # 0 => r.kind = M[r.src].kind /\ r.nc = M[r.src].nc /\ r.kind \in Viewable)
+    /\ (r.src # 0 /\ r.inh \in {"other", "sut"} =>
+          r.def = M[r.src].def /\ r.inh = (IF r.def = "sut" THEN "sut" ELSE "other"))
     /\ (r.src # 0 => M[r.owner].basei = M[r.src].owner)
 =============================================================================
